@@ -217,6 +217,30 @@ def prime_from(rng, mult, bits, smooth):
   return None
 
 
+_POLLARD_M = []
+
+
+def pollard_default_product():
+  """The documented default product of CheckPollardpm1 (definitional)."""
+  if not _POLLARD_M:
+    m = 1
+    for i, p in enumerate(small_primes()):
+      m *= p ** int(math.log(2 ** 64, p)) if i < 150 else p
+    _POLLARD_M.append(m)
+  return _POLLARD_M[0]
+
+
+def shared_smooth_checked(rng, nbits, both):
+  """shared_smooth, retried until p-1 (and q-1 iff both) divides the default
+  product and the shared smooth part is >= 2^60."""
+  M = pollard_default_product()
+  while True:
+    n, p, q = shared_smooth(rng, nbits, both)
+    if (M % (p - 1) == 0 and (M % (q - 1) == 0) == both and
+        math.gcd(math.gcd(p - 1, q - 1), M) >= 2 ** 60):
+      return n, p, q
+
+
 def shared_smooth(rng, nbits, both):
   """p-1 and q-1 share a 2^20-smooth factor >= 2^60; p-1 fully smooth; q-1
   smooth too iff both."""
